@@ -8,7 +8,7 @@ HERE = os.path.dirname(os.path.dirname(os.path.abspath(__file__)))
 FIRST_TRY = {'C01': True, 'C02': True, 'C03': False, 'C04': True, 'C05': False, 'C06': False, 'C07': True, 'C08': True, 'C09': True,
              'C10': False, 'C11': True, 'C12': False, 'C13': True, 'C14': True, 'C15': True, 'C16': True, 'C17': True, 'C18': False,
              'C19': False, 'C20': True,
-             'C01b': True, 'C03b': False, 'C04b': True, 'C05b': True, 'C06b': True, 'C07b': True, 'C09b': True, 'C10b': None,
+             'C01b': True, 'C03b': False, 'C04b': True, 'C05b': True, 'C06b': True, 'C07b': True, 'C09b': True, 'C10b': False,
              'C13b': True, 'C16b': False, 'C19b': False, 'C20b': True}
 STRENGTHEN = {
     'C03': 'the C03 simulator tied the configured keep_alive_time to hold/3; it is now an independent configuration dimension {60,1,7,600}',
@@ -19,6 +19,7 @@ STRENGTHEN = {
     'C18': 'REST route-refresh for a family the peer did not advertise, malformed route-refresh and un-constructible update requests were added',
     'C19': 'two routes with different labels in one VPNv4 UPDATE and two rules in one flowspec UPDATE were added',
     'C03b': 'the first KEEPALIVE may now arrive some time after the OPEN (ka_delay in {small, H/3, H/2, 2H/3, H-eps}); before, OPEN and first KEEPALIVE always came at the same instant',
+    'C10b': 'the hostile sequence can now be delivered in the 2nd or 3rd session of the same agent (earlier sessions ended by peer close / bad marker / Cease / silence) and NOTIFICATION bodies include (2,1); the change was caught by C02 from the start',
     'C16b': 'OPTIONS was added to the method dimension of the matrix (an automatic empty 200 reply is tolerated, any effect is not)',
     'C19b': 'attribute sets that are supersets of one another (set 0 + MED, + COMMUNITIES) were added, so a re-announcement that only drops an attribute occurs',
 }
